@@ -396,7 +396,8 @@ func vBuildVal(kw vKW, depth int, tag string, o vDocOpts) vJ {
 	case shSec:
 		// requirements: [ {name: [scope...]} ... ] including empty scope lists
 		req := vJObj()
-		vJAdd(req, true, "s"+vSymName(tag+".scheme", 1), vStrArr(tag+".scope", vVar(2, tag+".nscopes")))
+		// sec_empty: the first requirement may be the empty object {} (valid: "no security" alternative)
+		vJAdd(req, vParam("sec_empty", 0) == 0 || vNondetBool(tag+".first.nonempty"), "s"+vSymName(tag+".scheme", 1), vStrArr(tag+".scope", vVar(2, tag+".nscopes")))
 		if vParam("sec_reqs", 1) < 2 {
 			return vJArr([]vJ{req})
 		}
